@@ -148,10 +148,15 @@ class Inferior:
             gdb._state.frame = gdb.Frame('serialize_closure', {'closure': cv}, outer)
             return 'serialize_closure'
         bp = 'wl_closure_dispatch' if m.get('via') == 'dispatch' else 'wl_closure_invoke'
+        # a process that is client and server at once (nested compositor): the other side's dispatcher may be further out
+        # on the same stack (a listener for a host event runs the server's own loop, or a request handler does a
+        # round trip to the host); the side of a closure is that of the dispatcher that called it
+        other = self.connection(m['conn'] + 7) if m.get('nested') else None
         if m['side'] == 'client':
             target = gdb.wl_object(C.pointer(self.iface(m['iface'])), None, m['id'])
             self.keep.append(target)
-            outer = gdb.Frame('dispatch_event', {'display': gdb.ptr_to(cn['display'], gdb.wl_display), 'closure': cv})
+            far = gdb.Frame('handle_client_request', {}, gdb.Frame('wl_client_connection_data', {})) if other else None
+            outer = gdb.Frame('dispatch_event', {'display': gdb.ptr_to(cn['display'], gdb.wl_display), 'closure': cv}, far)
             tv = gdb.ptr_to(target, gdb.wl_object)
         else:
             res = gdb.wl_resource()
@@ -159,7 +164,9 @@ class Inferior:
             res.object.id = m['id']
             res.client = C.pointer(cn['client'])
             self.keep.append(res)
-            outer = gdb.Frame('wl_client_connection_data', {})
+            far = gdb.Frame('host_event_listener', {}, gdb.Frame(
+                'dispatch_event', {'display': gdb.ptr_to(other['display'], gdb.wl_display), 'closure': cv})) if other else None
+            outer = gdb.Frame('wl_client_connection_data', {}, far)
             tv = gdb.Value(gdb.Type(gdb.wl_object, 1), val=C.addressof(res.object))
         gdb._state.frame = gdb.Frame(bp, {'closure': cv, 'target': tv}, outer)
         return bp
